@@ -37,7 +37,12 @@ recognising one spelling of them:
                        apply to an environment without variables
 Spelling independence (C04_helpers): the per-delta application is a family of ownership variants (apply(&env) =
 apply_owned(env.clone()), delta_family); the entry loop may range over an order-preserving filter / map view of the
-entries nested in a loop over a literal behaviour table that is sorted like the map and never left early (EntryView);
+entries nested in a loop over a literal behaviour table that is sorted like the map and never left early (EntryView),
+or over a view whose stages (filter / map / filter_map, lazy or collected first) are evaluated per case — whether an
+entry of the case is visited at all and *what the loop element is* for it (`filter_map(|((b, n), v)| match b { Override =>
+Some(Op::Set { n, v }), .., Delimiter => None })`: the literal operation is substituted for the element, so a later
+`match op` in a private `execute` is decided like the match on the behaviour; EntryView.bind_case / ArmCase.refine) —
+provided the stages do not consult the environment (they run before the entries are applied);
 tested values that merge several arms are re-sliced under the case (Spec.edge_state); a variable may be updated in
 place through `&mut` its stored string (map.entry(k).or_default() / or_insert_with, pushes, mem::take) — what the
 string holds when the entry has been applied is what an insert would have stored (ArmCase.slot).
